@@ -627,7 +627,9 @@ impl Property for C14 {
         "Seeds sample container files (2-6 blocks; block sizes 1, 63, 64, 65, ~200 so counts need 1 and 2 varint bytes; zero-width \
          and variable-width items; all 6 codecs; generic schemas and serde corpus types; framing by the reference writer or by the \
          library writer). Per file the damage space is enumerated: EVERY byte offset as cut point under 2-3 read-chunk policies, \
-         every byte of every marker occurrence (8 single-bit flips + 1 substitution) and of the magic. One evaluation = one damaged \
+         every byte of every marker occurrence (8 single-bit flips + 1 substitution) and of the magic; and, on the intact file, one \
+         one-off read error (Other, WouldBlock, TimedOut, ConnectionReset - the source would go on afterwards) at EVERY offset and \
+         all four kinds at every block boundary: exactly the blocks read completely before it, one error, nothing after it. One evaluation = one damaged \
          read through one iterator (Reader, and into_deser_iter for corpus files). distinct_nontrivial counts distinct \
          (codec, damage region, iterator) triples, region in {magic, meta, header-marker, boundary, inside-count, after-count, \
          inside-size, payload, payload-end, trailer} or marker:{header,trailer} or magic."
@@ -651,7 +653,7 @@ impl Property for C14 {
         }
     }
     fn required_probes(&self) -> Vec<&'static str> {
-        vec!["probe.cut_inside_multibyte_count", "probe.cut_between_count_and_size", "probe.cut_inside_trailer", "probe.zero_width_items"]
+        vec!["probe.cut_inside_multibyte_count", "probe.cut_between_count_and_size", "probe.cut_inside_trailer", "probe.zero_width_items", "probe.read_error_on_block_boundary"]
     }
 
     fn generate(&self, rng: &mut Rng, _run: u64, _tier: Tier) -> Option<Case> {
